@@ -506,6 +506,64 @@ async fn routing_and_faults(ctx: &Ctx, rng: &mut Rng, epmd: &net::EpmdTable, id:
     if !gone {
         ctx.viol(&format!("C19:not-deregistered-after:{:?}", terminal), "the connection is still registered 5 s after the peer closed the stream / broke framing", json!({"scenario": id, "trace": trace}));
     }
+    // a second life: the peer comes back under the same name, the node connects again; the new connection must be
+    // registered, deliver, survive a fault, and be deregistered when it is closed - nothing of the first one lingers
+    if gone && id % 2 == 0 {
+        let name = w.peer_node.split('@').next().unwrap_or("").to_string();
+        let pl = net::listen_as(epmd, &name).await;
+        let accept = tokio::spawn(async move {
+            let mut peer = pl.accept("cookie", PEER_BASE_FLAGS, 81).await.ok()?;
+            peer.handshake().await.ok()?;
+            Some(peer)
+        });
+        ctx.class(&format!("reconnect-after/{:?}", terminal));
+        match w.node.connect(w.peer_node.clone()).await {
+            Err(e) => ctx.viol(&format!("C19:reconnect-refused-after:{:?}", terminal), "after the connection was deregistered the node cannot connect to the same peer again", json!({"scenario": id, "error": e.to_string()})),
+            Ok(()) => match accept.await {
+                Ok(Some(mut peer2)) => {
+                    ctx.eval(3);
+                    if !w.node.connections().contains_key(&w.peer_node) {
+                        ctx.viol("C19:reconnected-connection-not-registered", "a connection made after an earlier one to the same peer ended is not registered", json!({"scenario": id}));
+                    }
+                    for round in 0..3 {
+                        if round == 1 {
+                            let _ = peer2.write_frame4(&[112, 131, 255, 1]).await;
+                            let _ = peer2.sock_write(&[0, 0, 0, 0]).await;
+                        }
+                        let k = round % w.procs.len();
+                        let payload = Val::Tuple(vec![Val::atom("second_life"), Val::int(id as i128 * 10 + round as i128)]);
+                        let control = Val::Tuple(vec![Val::int(2), Val::atom(""), pidval(&w.procs[k])]);
+                        let _ = peer2.write_frame4(&pt(&control, Some(&payload))).await;
+                        let want = payload.clone();
+                        let ok = wait_for(&w.log, |l| l.iter().any(|e| matches!(e, Ev::Regular { body, .. } if body.same(&want))), 1500).await;
+                        let hits: Vec<u32> = w.log.lock().unwrap().iter().filter_map(|e| match e { Ev::Regular { by, body } if body.same(&want) => Some(*by), _ => None }).collect();
+                        if !ok || hits != vec![w.procs[k].id] {
+                            ctx.viol("C19:route:lost-on-a-reconnected-connection", "a message arriving on a connection made after an earlier one to the same peer ended was not delivered to exactly its recipient", json!({"scenario": id, "round": round, "delivered_to": hits, "first_connection_ended_by": format!("{:?}", terminal)}));
+                            break;
+                        }
+                    }
+                    tokio::time::sleep(Duration::from_millis(30)).await;
+                    if !w.node.connections().contains_key(&w.peer_node) {
+                        ctx.viol("C19:reconnected-connection-deregistered", "the second connection to a peer was deregistered although the peer neither closed it nor broke framing", json!({"scenario": id, "first_connection_ended_by": format!("{:?}", terminal)}));
+                    }
+                    drop(peer2);
+                    let t0 = Instant::now();
+                    let mut gone2 = false;
+                    while t0.elapsed() < Duration::from_secs(5) {
+                        if !w.node.connections().contains_key(&w.peer_node) {
+                            gone2 = true;
+                            break;
+                        }
+                        tokio::time::sleep(Duration::from_millis(5)).await;
+                    }
+                    if !gone2 {
+                        ctx.viol("C19:not-deregistered-after:Close:second-connection", "the second connection is still registered 5 s after the peer closed it", json!({"scenario": id}));
+                    }
+                }
+                _ => ctx.inconclusive("scripted peer did not complete the second handshake"),
+            },
+        }
+    }
     if id % 11 == 0 {
         ctx.sample(json!({"scenario": id, "steps": trace, "terminal": format!("{:?}", terminal), "events_logged": w.log.lock().unwrap().len()}));
     }
